@@ -257,6 +257,90 @@ fn run_many_groups(cx: &mut CaseCx, case: &Value) {
 
 
 
+
+/// Boundary search on the grouping key: among several hundred thousand measurements, the pairs whose TAGS
+/// agree in the most leading / trailing bytes (by the birthday bound a few agree in 4) are aggregated
+/// together - grouped, interleaved both ways, one group below threshold - and must come out separately.
+fn run_near_colliding_tags(cx: &mut CaseCx, _case: &Value) {
+  use sta_rs::{MessageGenerator, SingleMeasurement};
+  let n = if cx.tier.thorough() { 1_200_000u32 } else { 400_000 };
+  let t = 3u32;
+  let epoch = b"epoch-2026-09".to_vec();
+  let meas: Vec<Vec<u8>> = (0..n).map(|i| format!("page-{}", i).into_bytes()).collect();
+  let tags: Vec<[u8; 32]> = par_map(&meas, |_, m| {
+    let mg = MessageGenerator::new(SingleMeasurement::new(m), t, &epoch);
+    let mut rnd = [0u8; 32];
+    mg.sample_local_randomness(&mut rnd);
+    sta_rs::Message::generate(&mg, &rnd, None).map(|x| { let mut a = [0u8; 32]; a.copy_from_slice(&x.tag[..32.min(x.tag.len())]); a }).unwrap_or([0u8; 32])
+  });
+  cx.count("tags_examined", tags.len() as u64);
+  let common = |a: &[u8; 32], b: &[u8; 32]| a.iter().zip(b.iter()).take_while(|(x, y)| x == y).count();
+  let mut cands: Vec<(usize, &'static str, usize, usize)> = vec![];
+  for rev in [false, true] {
+    let key = |i: usize| {
+      let mut k = tags[i];
+      if rev {
+        k.reverse();
+      }
+      k
+    };
+    let mut idx: Vec<usize> = (0..tags.len()).collect();
+    idx.sort_by_key(|&i| key(i));
+    for w in idx.windows(2) {
+      let c = common(&key(w[0]), &key(w[1]));
+      if c >= 3 && c < 32 {
+        cands.push((c, if rev { "trailing" } else { "leading" }, w[0], w[1]));
+      }
+    }
+  }
+  // also: equal first byte AND equal last byte etc. are implied by nothing; take the closest 12 of each kind
+  cands.sort_by(|a, b| b.0.cmp(&a.0));
+  let lead: Vec<_> = cands.iter().filter(|c| c.1 == "leading").take(12).cloned().collect();
+  let trail: Vec<_> = cands.iter().filter(|c| c.1 == "trailing").take(12).cloned().collect();
+  cx.count("best_leading_agreement_bytes", lead.first().map(|c| c.0 as u64).unwrap_or(0));
+  let server = AggregationServer::new(t, std::str::from_utf8(&epoch).unwrap());
+  let pool = rayon::ThreadPoolBuilder::new().num_threads(2).build().expect("pool");
+  for (agree, which, i, j) in lead.into_iter().chain(trail.into_iter()) {
+    let mk = |cx: &mut CaseCx, m: &Vec<u8>, cnt: usize, g0: u32| -> Vec<Rep> {
+      let rnd = local_randomness(m, &epoch, t);
+      (0..cnt)
+        .filter_map(|k| {
+          getrandom::verif::set_group(g0 + k as u32);
+          let aux = aux_for(k + g0 as usize);
+          let msg = gen_report(m, &epoch, t, &rnd, &aux).ok()?;
+          let x = share_x(&msg.share.to_bytes())?;
+          let _ = &cx;
+          Some(Rep { msg, meas: m.clone(), aux, x })
+        })
+        .collect()
+    };
+    for (na, nb) in [(3usize, 3usize), (4, 3), (3, 2), (2, 3)] {
+      let a = mk(cx, &meas[i], na, 1);
+      let b = mk(cx, &meas[j], nb, 100);
+      let orders: Vec<(&str, Vec<&Rep>)> = vec![
+        ("group by group", a.iter().chain(b.iter()).collect()),
+        ("interleaved A,B,A,B", (0..na.max(nb)).flat_map(|k| a.get(k).into_iter().chain(b.get(k).into_iter())).collect()),
+        ("interleaved B,A,B,A", (0..na.max(nb)).flat_map(|k| b.get(k).into_iter().chain(a.get(k).into_iter())).collect()),
+        ("B then A", b.iter().chain(a.iter()).collect()),
+      ];
+      for (oname, ord) in orders {
+        let want = expected(&ord, t);
+        let msgs: Vec<Message> = ord.iter().map(|r| r.msg.clone()).collect();
+        cx.nontrivial(fnv_str(&format!("{}|{}|{}|{}|{}", i, j, na, nb, oname)));
+        if !judge(cx, observe(&server, &pool, &msgs), &want, &|| json!({"t": t, "measurement_a": String::from_utf8_lossy(&meas[i]), "measurement_b": String::from_utf8_lossy(&meas[j]), "tags_agree_in": format!("{} {} bytes", agree, which), "reports": [na, nb], "order": oname})) {
+          if let Some(v) = cx.viols.last_mut() {
+            v.key = format!("{}/near-colliding-tags", v.key);
+            v.what = format!("two measurements whose tags agree in their {} {} bytes, submitted {}: {}", which, agree, oname, v.what);
+          }
+          return;
+        }
+        cx.count("near_collision_aggregations", 1);
+      }
+    }
+  }
+  cx.outcome("near-colliding tags aggregate separately");
+}
+
 /// magnitudes: associated data beyond 64 KiB, thresholds in the hundreds
 fn run_magnitudes(cx: &mut CaseCx, case: &Value) {
   let t = case["t"].as_u64().unwrap() as u32;
@@ -483,6 +567,13 @@ pub fn spec() -> PropSpec {
         },
         run: run_vector,
         min_counts: &[("revealed_groups", 50), ("hidden_groups", 50), ("states", 10_000)],
+      },
+      Check {
+        name: "near-colliding-tags",
+        rule: "boundary search on the grouping key: tags of 400000 measurements (thorough 1.2 million; by the birthday bound several pairs agree in 4 leading or trailing bytes); the 12 closest pairs by leading bytes and the 12 closest by trailing bytes are aggregated together with (3,3), (4,3), (3,2), (2,3) reports, group by group, interleaved both ways and reversed: each measurement revealed iff it has >= t reports, with its own associated data",
+        gen: |_| vec![json!({})],
+        run: run_near_colliding_tags,
+        min_counts: &[("near_collision_aggregations", 100), ("best_leading_agreement_bytes", 4)],
       },
       Check {
         name: "magnitudes",
